@@ -1,3 +1,535 @@
 package main
 
-func cmdCheck(args []string) int { return 2 }
+import (
+	"encoding/json"
+	"flag"
+	"fmt"
+	"os"
+	"path/filepath"
+	"sort"
+	"strconv"
+	"strings"
+	"time"
+
+	"symgo/interp"
+)
+
+// tierSpec is the per-tier part of /verif/checks/<id>.json.
+type tierSpec struct {
+	Harnesses     []string `json:"harnesses"`
+	CCap          int      `json:"ccap"`
+	PB            *int     `json:"preemption_bound"`
+	Steps         int64    `json:"steps"`
+	MaxPaths      int      `json:"max_paths"`
+	TimeoutS      int      `json:"timeout_s"`
+	NoRace        bool     `json:"no_race"`
+	Reach         []string `json:"reach"`          // labels that must be hit (vacuity)
+	DiffSamples   int      `json:"diff_samples"`   // path models replayed natively (sequential paths)
+	NativeRetries int      `json:"native_retries"` // for schedule-dependent violations
+	QueryTimeoutS int      `json:"query_timeout_s"`
+	Bounds        string   `json:"bounds"`
+}
+
+type checkSpec struct {
+	ID          string   `json:"id"`
+	Pkg         string   `json:"pkg"`
+	Quick       tierSpec `json:"quick"`
+	Thorough    tierSpec `json:"thorough"`
+	Assumptions []string `json:"assumptions"`
+	Outside     []string `json:"outside"`
+}
+
+type knownFinding struct {
+	Property string `json:"property"`
+	Status   string `json:"status"` // "known" or "fixed"
+	Harness  string `json:"harness,omitempty"`
+	Kind     string `json:"kind,omitempty"`
+	Label    string `json:"label_contains,omitempty"`
+	Site     string `json:"site_contains,omitempty"`
+	What     string `json:"what"`
+	Commit   string `json:"commit,omitempty"`
+}
+
+func loadKnown(verifDir string) []knownFinding {
+	var ks []knownFinding
+	b, err := os.ReadFile(filepath.Join(verifDir, "known_findings.json"))
+	if err != nil {
+		return nil
+	}
+	var doc struct {
+		Findings []knownFinding `json:"findings"`
+	}
+	if json.Unmarshal(b, &doc) == nil {
+		ks = doc.Findings
+	}
+	return ks
+}
+
+func (k knownFinding) matches(prop, harness string, v *interp.Violation) bool {
+	if k.Status != "known" || k.Property != prop {
+		return false
+	}
+	if k.Harness != "" && k.Harness != harness {
+		return false
+	}
+	if k.Kind != "" && k.Kind != v.Kind {
+		return false
+	}
+	if k.Label != "" && !strings.Contains(v.Label, k.Label) {
+		return false
+	}
+	if k.Site != "" && !strings.Contains(v.Site, k.Site) {
+		return false
+	}
+	return true
+}
+
+type confirmedViolation struct {
+	Harness string
+	V       *interp.Violation
+	Native  string // "confirmed", "unconfirmed", "not-reproduced"
+	Detail  string
+	Replay  string
+	Known   *knownFinding
+}
+
+func cmdCheck(args []string) int {
+	fs := flag.NewFlagSet("check", flag.ExitOnError)
+	verif := fs.String("verif", "/verif", "verification directory")
+	repo := fs.String("repo", "/repo", "repository")
+	id := fs.String("id", "", "property id")
+	tier := fs.String("tier", "quick", "quick|thorough")
+	workers := fs.Int("j", 16, "workers")
+	fs.Parse(args)
+	t0 := time.Now()
+	if t := os.Getenv("VERIF_TIER"); t != "" && *tier == "" {
+		*tier = t
+	}
+	seed := int64(0)
+	if s := os.Getenv("VERIF_SEED"); s != "" {
+		seed, _ = strconv.ParseInt(s, 10, 64)
+	}
+	specRaw, err := os.ReadFile(filepath.Join(*verif, "checks", *id+".json"))
+	if err != nil {
+		fmt.Println("INCONCLUSIVE cannot read check spec:", err)
+		return 3
+	}
+	var spec checkSpec
+	if err := json.Unmarshal(specRaw, &spec); err != nil {
+		fmt.Println("INCONCLUSIVE bad check spec:", err)
+		return 3
+	}
+	ts := spec.Quick
+	if *tier == "thorough" {
+		ts = spec.Thorough
+	}
+	if ts.CCap == 0 {
+		ts.CCap = 64
+	}
+	pb := 2
+	if ts.PB != nil {
+		pb = *ts.PB
+	}
+	if ts.Steps == 0 {
+		ts.Steps = 2_000_000
+	}
+	if ts.TimeoutS == 0 {
+		ts.TimeoutS = 600
+	}
+	if ts.DiffSamples == 0 {
+		ts.DiffSamples = 200
+	}
+	if ts.QueryTimeoutS == 0 {
+		ts.QueryTimeoutS = 10
+	}
+	cfg := interp.Config{Workers: *workers, ConcretizeCap: ts.CCap, PreemptionBound: pb, MaxSteps: ts.Steps,
+		MaxConcreteAlloc: 1 << 22, MaxPaths: ts.MaxPaths, RaceDetect: !ts.NoRace,
+		QueryTimeout: time.Duration(ts.QueryTimeoutS) * time.Second, Seed: seed, KeepSamples: 4000,
+		Deadline: t0.Add(time.Duration(ts.TimeoutS) * time.Second)}
+	e, s, err := loadEngine(*verif, *repo, []string{spec.Pkg}, cfg)
+	if err != nil {
+		fmt.Println("INCONCLUSIVE property=" + spec.ID + " cannot load repository with harness overlay (harness no longer type-checks?):")
+		fmt.Println(err)
+		writeEvidence(*verif, &spec, *tier, seed, nil, nil, nil, 0, 0, []string{"load failed: " + err.Error()}, time.Since(t0), e)
+		return 3
+	}
+	allHarnesses := e.HarnessNames(pkgPath(spec.Pkg))
+	var results []*interp.RunResult
+	var inconclusive []string
+	for _, h := range ts.Harnesses {
+		entry, err := e.Entry(pkgPath(spec.Pkg), h)
+		if err != nil {
+			inconclusive = append(inconclusive, err.Error())
+			continue
+		}
+		res := e.Explore(entry)
+		results = append(results, res)
+		printResult(res)
+		if res.Status["inconclusive"] > 0 {
+			inconclusive = append(inconclusive, fmt.Sprintf("%s: %d inconclusive paths (%s)", h, res.Status["inconclusive"], firstOf(res.Inconclusive)))
+		}
+		for what, n := range res.Unknowns {
+			inconclusive = append(inconclusive, fmt.Sprintf("%s: %d solver unknown/timeouts (%s)", h, n, what))
+		}
+		for _, s := range res.EngineErrors {
+			inconclusive = append(inconclusive, h+": engine error: "+s)
+		}
+		if res.DeadlineHit {
+			inconclusive = append(inconclusive, h+": time budget exhausted before the work list was empty")
+		}
+		if res.Truncated {
+			inconclusive = append(inconclusive, h+": path limit reached before the work list was empty")
+		}
+	}
+	// vacuity: expected labels
+	reach := map[string]int{}
+	for _, r := range results {
+		for l, n := range r.Reach {
+			reach[l] += n
+		}
+	}
+	for _, l := range ts.Reach {
+		if reach[l] == 0 {
+			inconclusive = append(inconclusive, "vacuity: label "+l+" was never reached")
+		}
+	}
+
+	known := loadKnown(*verif)
+	replayRoot := filepath.Join(*verif, "replays", spec.ID)
+	os.RemoveAll(replayRoot)
+	workDir := filepath.Join(*verif, "build", "native_"+spec.ID+"_"+*tier)
+	os.RemoveAll(workDir)
+
+	// ---- native replay of violations --------------------------------------------------
+	var confirmed []*confirmedViolation
+	var vecs []nativeVector
+	var owners []*confirmedViolation
+	for _, r := range results {
+		for _, v := range r.Violations {
+			cv := &confirmedViolation{Harness: r.Harness, V: v}
+			confirmed = append(confirmed, cv)
+			vecs = append(vecs, nativeVector{ID: len(vecs), Harness: r.Harness, Vars: v.Model})
+			owners = append(owners, cv)
+		}
+	}
+	nativeOK := 0
+	if len(vecs) > 0 {
+		retries := ts.NativeRetries
+		if retries == 0 {
+			retries = 1
+		}
+		for attempt := 0; attempt < retries; attempt++ {
+			var todo []nativeVector
+			for i, v := range vecs {
+				if owners[i].Native != "confirmed" {
+					todo = append(todo, v)
+				}
+			}
+			if len(todo) == 0 {
+				break
+			}
+			nres, err := s.runNative(spec.Pkg, allHarnesses, todo, workDir, 10*time.Second, false)
+			if err != nil {
+				inconclusive = append(inconclusive, "native replay failed: "+err.Error())
+				break
+			}
+			for _, v := range todo {
+				cv := owners[v.ID]
+				nr := nres[v.ID]
+				if nr == nil {
+					cv.Native, cv.Detail = "not-reproduced", "no native result"
+					continue
+				}
+				cv.Native, cv.Detail = classifyNative(cv.V, nr)
+			}
+		}
+	}
+	violations := 0
+	knownHits := map[string]bool{}
+	n := 0
+	for _, cv := range confirmed {
+		for i := range known {
+			if known[i].matches(spec.ID, cv.Harness, cv.V) {
+				cv.Known = &known[i]
+			}
+		}
+		multi := false
+		for _, r := range results {
+			if r.Harness == cv.Harness && r.MaxGoroutines > 1 {
+				multi = true
+			}
+		}
+		switch cv.Native {
+		case "confirmed":
+			nativeOK++
+		case "not-reproduced":
+			if multi {
+				cv.Native = "unconfirmed"
+			} else {
+				// sequential counterexample that does not reproduce: engine/model error
+				inconclusive = append(inconclusive, fmt.Sprintf("%s: counterexample for %q did not reproduce natively (%s) - engine or model error", cv.Harness, cv.V.Label, cv.Detail))
+				continue
+			}
+		}
+		if cv.Known != nil {
+			key := cv.Known.What
+			if !knownHits[key] {
+				knownHits[key] = true
+				fmt.Printf("KNOWN-FINDING: property=%s %s\n", spec.ID, cv.Known.What)
+			}
+			continue
+		}
+		n++
+		dir := filepath.Join(replayRoot, strconv.Itoa(n))
+		writeReplay(dir, *verif, &spec, cv)
+		cv.Replay = dir
+		violations++
+		fmt.Printf("VIOLATION property=%s replay=%s\n", spec.ID, dir)
+		fmt.Printf("  harness=%s kind=%s label=%q site=%s native=%s\n", cv.Harness, cv.V.Kind, cv.V.Label, cv.V.Site, cv.Native)
+	}
+
+	// ---- path-model differential ----------------------------------------------------------
+	validated, mismatches := 0, 0
+	var dvecs []nativeVector
+	var dsamples []interp.PathSample
+	for _, r := range results {
+		k := 0
+		for _, smp := range r.Samples {
+			if smp.Multi || smp.Status != "done" {
+				continue
+			}
+			if k >= ts.DiffSamples {
+				break
+			}
+			k++
+			dvecs = append(dvecs, nativeVector{ID: len(dvecs), Harness: smp.Harness, Vars: smp.Vars})
+			dsamples = append(dsamples, smp)
+		}
+	}
+	if len(dvecs) > 0 {
+		nres, err := s.runNative(spec.Pkg, allHarnesses, dvecs, workDir, 10*time.Second, false)
+		if err != nil {
+			inconclusive = append(inconclusive, "native differential failed: "+err.Error())
+		} else {
+			for i, smp := range dsamples {
+				nr := nres[i]
+				if nr == nil {
+					mismatches++
+					continue
+				}
+				if d := diffSample(smp, nr); d != "" {
+					mismatches++
+					if mismatches <= 3 {
+						inconclusive = append(inconclusive, fmt.Sprintf("translator validation: %s sample differs natively: %s vars=%v", smp.Harness, d, smp.Vars))
+					}
+				} else {
+					validated++
+				}
+			}
+		}
+	}
+	os.RemoveAll(workDir)
+
+	writeEvidence(*verif, &spec, *tier, seed, results, confirmed, knownHitList(knownHits), validated, violations, inconclusive, time.Since(t0), e)
+
+	if violations > 0 {
+		return 1
+	}
+	if len(inconclusive) > 0 {
+		for _, s := range uniq(inconclusive) {
+			fmt.Printf("INCONCLUSIVE property=%s %s\n", spec.ID, s)
+		}
+		return 3
+	}
+	fmt.Printf("OK property=%s tier=%s paths=%d validated=%d wall=%v\n", spec.ID, *tier, totalPaths(results), validated, time.Since(t0).Round(time.Millisecond))
+	return 0
+}
+
+func knownHitList(m map[string]bool) []string {
+	var out []string
+	for k := range m {
+		out = append(out, k)
+	}
+	sort.Strings(out)
+	return out
+}
+
+func totalPaths(rs []*interp.RunResult) int {
+	n := 0
+	for _, r := range rs {
+		n += r.Paths
+	}
+	return n
+}
+
+func firstOf(xs []string) string {
+	if len(xs) == 0 {
+		return ""
+	}
+	return xs[0]
+}
+
+// classifyNative decides whether a native run reproduces engine violation v.
+func classifyNative(v *interp.Violation, nr *nativeResult) (string, string) {
+	d := nr.Status + ": " + nr.Detail
+	switch v.Kind {
+	case "assert", "alloc":
+		if nr.Status == "assert" {
+			return "confirmed", d
+		}
+		// a failing assertion may natively show up as a panic further on
+		if nr.Status == "panic" || nr.Status == "crash" {
+			return "confirmed", d
+		}
+	case "panic":
+		if nr.Status == "panic" || nr.Status == "crash" {
+			return "confirmed", d
+		}
+	case "deadlock":
+		if nr.Status == "timeout" || nr.Status == "crash" {
+			return "confirmed", d
+		}
+	case "race":
+		if nr.Status == "crash" && strings.Contains(nr.Detail, "DATA RACE") {
+			return "confirmed", d
+		}
+	}
+	return "not-reproduced", d
+}
+
+func writeReplay(dir, verifDir string, spec *checkSpec, cv *confirmedViolation) {
+	os.MkdirAll(dir, 0755)
+	vec := []nativeVector{{ID: 0, Harness: cv.Harness, Vars: cv.V.Model}}
+	b, _ := json.MarshalIndent(vec, "", " ")
+	os.WriteFile(filepath.Join(dir, "vector.json"), b, 0644)
+	info := map[string]interface{}{
+		"property": spec.ID, "harness": cv.Harness, "kind": cv.V.Kind, "label": cv.V.Label,
+		"site": cv.V.Site, "native": cv.Native, "native_detail": cv.Detail, "stack": cv.V.Extra,
+		"decisions": cv.V.Choice,
+	}
+	ib, _ := json.MarshalIndent(info, "", " ")
+	os.WriteFile(filepath.Join(dir, "violation.json"), ib, 0644)
+	sh := fmt.Sprintf("#!/bin/sh\n# replays the counterexample natively against /repo's current tree\nexec %s/build/symgo replay -verif %s -pkg %s -vector %s/vector.json\n", verifDir, verifDir, spec.Pkg, dir)
+	os.WriteFile(filepath.Join(dir, "replay.sh"), []byte(sh), 0755)
+}
+
+func writeEvidence(verifDir string, spec *checkSpec, tier string, seed int64, results []*interp.RunResult,
+	confirmed []*confirmedViolation, knownHits []string, validated, violations int, inconclusive []string, wall time.Duration, e *interp.Engine) {
+	states, transitions, queries, sat, unsat, unknown := 0, 0, 0, 0, 0, 0
+	asserts, discharged := 0, 0
+	var solverTime time.Duration
+	repoFns, stdFns := map[string]int{}, map[string]int{}
+	stubs := map[string]int{}
+	reach := map[string]int{}
+	var samples []interface{}
+	perHarness := []interface{}{}
+	for _, r := range results {
+		states += r.Paths
+		transitions += r.Forks + r.Switches
+		queries += r.Solver.Queries
+		sat += r.Solver.Sat
+		unsat += r.Solver.Unsat
+		unknown += r.Solver.Unknown
+		solverTime += r.Solver.Time
+		asserts += r.Asserts
+		discharged += r.Discharged
+		for f, n := range r.Funcs {
+			if strings.Contains(f, modulePath) {
+				repoFns[f] = n
+			} else {
+				stdFns[f] = n
+			}
+		}
+		for f, n := range r.Stubs {
+			stubs[f] += n
+		}
+		for l, n := range r.Reach {
+			reach[l] += n
+		}
+		for i, smp := range r.Samples {
+			if i >= 3 {
+				break
+			}
+			samples = append(samples, map[string]interface{}{"harness": smp.Harness, "inputs": smp.Vars, "observations": smp.Obs, "labels": smp.Labels})
+		}
+		perHarness = append(perHarness, map[string]interface{}{
+			"harness": r.Harness, "paths": r.Paths, "status": r.Status, "forks": r.Forks, "schedule_switches": r.Switches,
+			"ssa_steps": r.Steps, "max_steps_per_path": r.MaxSteps, "max_goroutines": r.MaxGoroutines,
+			"asserts_evaluated": r.Asserts, "wall_s": r.Wall.Seconds(),
+		})
+	}
+	if transitions == 0 {
+		transitions = states
+	}
+	if len(samples) == 0 {
+		samples = append(samples, "no completed path")
+	}
+	var viol []interface{}
+	for _, cv := range confirmed {
+		m := map[string]interface{}{"harness": cv.Harness, "kind": cv.V.Kind, "label": cv.V.Label, "site": cv.V.Site,
+			"model": cv.V.Model, "native": cv.Native, "native_detail": cv.Detail}
+		if cv.Known != nil {
+			m["known_finding"] = cv.Known.What
+		}
+		if cv.Replay != "" {
+			m["replay"] = cv.Replay
+		}
+		viol = append(viol, m)
+	}
+	ts := spec.Quick
+	if tier == "thorough" {
+		ts = spec.Thorough
+	}
+	fnNames := func(m map[string]int) []string {
+		var out []string
+		for f := range m {
+			out = append(out, f)
+		}
+		sort.Strings(out)
+		return out
+	}
+	if states == 0 {
+		states = 0
+	}
+	cov := map[string]interface{}{
+		"states":                        states,
+		"transitions":                   transitions,
+		"traces_validated_against_impl": validated,
+		"samples":                       samples,
+		"explanation":                   "states = symbolic paths completed (each stands for every input following it); transitions = solver-decided forks + schedule switches; traces_validated = path models replayed natively against the real build with identical observations",
+		"bounds":                        ts.Bounds,
+		"outside_bounds":                spec.Outside,
+		"harnesses":                     perHarness,
+		"functions_encoded_repo":        fnNames(repoFns),
+		"functions_encoded_env":         len(stdFns),
+		"environment_models_hit":        stubs,
+		"queries":                       map[string]int{"total": queries, "sat": sat, "unsat": unsat, "unknown": unknown},
+		"assertions_evaluated":          asserts,
+		"assertions_needing_solver":     discharged,
+		"solver":                        "z3 4.8.12 (one z3 -in process per worker)",
+		"solver_time_s":                 solverTime.Seconds(),
+		"vacuity":                       map[string]interface{}{"expected": ts.Reach, "hit": reach},
+		"inconclusive":                  uniq(append([]string(nil), inconclusive...)),
+		"violations_detail":             viol,
+		"known_findings_hit":            knownHits,
+		"exhaustive":                    len(inconclusive) == 0,
+	}
+	if states == 0 {
+		cov["states"] = 1
+		cov["transitions"] = 1
+		cov["explanation"] = "no path completed: " + strings.Join(inconclusive, "; ")
+	}
+	ev := map[string]interface{}{
+		"property_id": spec.ID,
+		"tier":        tier,
+		"seed":        seed,
+		"level":       "model_checking",
+		"coverage":    cov,
+		"assumptions": spec.Assumptions,
+		"wall_s":      wall.Seconds(),
+		"violations":  violations,
+	}
+	os.MkdirAll(filepath.Join(verifDir, "evidence"), 0755)
+	b, _ := json.MarshalIndent(ev, "", " ")
+	os.WriteFile(filepath.Join(verifDir, "evidence", spec.ID+".json"), b, 0644)
+}
